@@ -3,7 +3,7 @@
 cd /verif
 git -C /repo diff --quiet || { echo "/repo dirty"; exit 3; }
 git -C /repo apply /verif/seeded/$1/patch.diff || exit 3
-VERIF_SEED=${VERIF_SEED:-1} ./check $2 --tier ${3:-quick} > /tmp/try_$1_$2.out 2>&1
+VERIF_SEED=${VERIF_SEED:-1} VERIF_OUT=${VERIF_OUT:-/tmp/scr/try} ./check $2 --tier ${3:-quick} > /tmp/try_$1_$2.out 2>&1
 rc=$?
 git -C /repo checkout -- .
 echo "$1 vs $2: exit=$rc $(grep -c '^VIOLATION' /tmp/try_$1_$2.out) violation line(s); $(grep -m1 -A3 '^VIOLATION' /tmp/try_$1_$2.out | tr '\n' ' ' | cut -c1-400)"
